@@ -136,6 +136,12 @@ func RegisterSV(ld *Loaded) {
 		p := fr.i.path
 		p.mustTerminate = p.concreteString(args[1], "site")
 		p.sites[p.mustTerminate]++
+		if p.stepBudget == 0 {
+			// what has to end gets 400 000 further instructions (an ordinary
+			// path needs a few ten thousand): a run that spins is recognised
+			// without spending the whole general budget on it
+			p.stepBudget = p.steps + 400_000
+		}
 		return nil
 	})
 	reg("FloatSame", func(fr *frame, args []value) value {
